@@ -4,7 +4,7 @@
 //! A program is a typed AST printed twice: as Roto source and as a token
 //! stream for `c02 spec …` of the Lean driver (`RotoV.Model.ValueSpec`).
 use crate::types::*;
-use roto::{FileTree, NoCtx, Runtime, library, RotoString};
+use roto::{FileTree, NoCtx, Runtime, library, RotoString, Val};
 use rotov_harness::driver::{Driver, hex};
 use rotov_harness::{Prng, Report};
 use serde_json::{Value, json};
@@ -17,8 +17,37 @@ fn log(s: String) {
     LOG.lock().unwrap().push(s);
 }
 
+#[derive(Clone, Debug, PartialEq)]
+pub struct Big {
+    a: u64,
+    b: u32,
+    c: u64,
+}
+#[derive(Clone, Copy, Debug, PartialEq)]
+pub struct Pt(u8, u8, u8);
+
 pub fn runtime() -> Runtime<NoCtx> {
     Runtime::from_lib(library! {
+        /// 24-byte registered Clone type
+        #[clone] type Big = Val<Big>;
+        /// 3-byte registered Copy type, align 1
+        #[copy] type Pt = Val<Pt>;
+        /// make one
+        fn mk_big(x: u32) -> Val<Big> { Val(Big { a: x as u64 + 1, b: x, c: !(x as u64) }) }
+        /// make one
+        fn mk_pt(x: u8) -> Val<Pt> { Val(Pt(x, x.wrapping_add(1), !x)) }
+        /// emit
+        fn emit_big(v: Val<Big>) {
+            let v = v.0;
+            assert!(v.a == v.b as u64 + 1 && v.c == !(v.b as u64), "corrupted Big {v:?}");
+            log(format!("i:{}", v.b))
+        }
+        /// emit
+        fn emit_pt(v: Val<Pt>) {
+            let v = v.0;
+            assert!(v.1 == v.0.wrapping_add(1) && v.2 == !v.0, "corrupted Pt {v:?}");
+            log(format!("i:{}", v.0))
+        }
         /// emit
         fn emit_bool(v: bool) { log(format!("i:{}", v as u8)) }
         /// emit
@@ -91,6 +120,10 @@ pub enum E {
     Lst(Vec<E>),
     /// identity function call `id_k(e)`
     Pass(usize, Box<E>),
+    /// registered host value built by a host function: `mk_big(e)` / `mk_pt(e)`
+    Host(&'static str, Box<E>),
+    /// `list.get(i)`: `Some(element copy)` / `None`
+    Get(Box<E>, u64),
     /// `try_k(e)`: `fn try_k(x: Option[T]) -> Option[U] { let y = x?; Some(y.<path>) }`
     Try(usize, Vec<usize>, Box<E>),
     Eq(bool, Box<E>, Box<E>),
@@ -281,6 +314,16 @@ impl<'a> Gen<'a> {
                 }
             }
             T::Unit => E::Unit,
+            T::Host("Big") => {
+                let inner = self.build(&T::Int(false, 32), 0);
+                self.kinds.insert("host-clone-type");
+                E::Host("mk_big", Box::new(inner))
+            }
+            T::Host(_) => {
+                let inner = self.build(&T::Int(false, 8), 0);
+                self.kinds.insert("host-copy-type");
+                E::Host("mk_pt", Box::new(inner))
+            }
             T::Str => E::Str(self.p.pick(&["", "a", "héllo", "xyz", "a longer string value"]).to_string()),
             T::List(e) => {
                 let n = if depth == 0 { 0 } else { self.p.below(4) };
@@ -325,7 +368,7 @@ impl<'a> Gen<'a> {
     }
 
     fn pick_type(&mut self) -> T {
-        let o = GenOpts { exotic: false };
+        let o = GenOpts { exotic: false, host: true };
         loop {
             let t = if !self.env.decls.is_empty() && self.p.chance(3, 5) {
                 let i = self.p.below(self.env.decls.len() as u64) as usize;
@@ -478,7 +521,15 @@ impl<'a> Gen<'a> {
                 return;
             }
             let (l, et) = self.p.pick(&ls).clone();
-            if self.p.chance(3, 4) {
+            if self.p.chance(1, 4) {
+                // read an element back out: a copy wrapped in an Option
+                let ot = T::Opt(Box::new(et.clone()));
+                let ann = ot.src(&self.env);
+                let i = self.p.below(4);
+                let w = self.new_var(ot, None);
+                out.push(S::Let(w, Some(ann), E::Get(Box::new(l), i)));
+                self.kinds.insert("list-get");
+            } else if self.p.chance(3, 4) {
                 let e = self.build(&et, 2);
                 out.push(S::Push(l, e));
                 self.kinds.insert("list-push");
@@ -675,6 +726,8 @@ impl Src<'_> {
             }
             E::Lst(xs) => format!("[{}]", xs.iter().map(|x| self.e(x, None)).collect::<Vec<_>>().join(", ")),
             E::Pass(k, x) => format!("id_{k}({})", self.e(x, None)),
+            E::Host(f, x) => format!("{f}({})", self.e(x, None)),
+            E::Get(l, i) => format!("{}.get({i})", self.e(l, None)),
             E::Try(k, _, x) => format!("try_{k}({})", self.e(x, None)),
             E::Eq(neg, a, b) => format!("({} {} {})", self.e(a, None), if *neg { "!=" } else { "==" }, self.e(b, None)),
             E::Len(x) => format!("{}.len()", self.e(x, None)),
@@ -687,6 +740,8 @@ impl Src<'_> {
             T::Bool => *out += &format!("{ind}emit_bool({e});\n"),
             T::Int(s, b) => *out += &format!("{ind}emit_{}{b}({e});\n", if *s { "i" } else { "u" }),
             T::Str => *out += &format!("{ind}emit_str({e});\n"),
+            T::Host("Big") => *out += &format!("{ind}emit_big({e});\n"),
+            T::Host(_) => *out += &format!("{ind}emit_pt({e});\n"),
             T::Unit => *out += &format!("{ind}emit_unit();\n"),
             T::List(et) => {
                 let x = format!("x{}", self.fresh);
@@ -766,7 +821,7 @@ impl Src<'_> {
                 S::Emit(e, t) => {
                     let es = self.e(e, Some(t));
                     // bind once so that the emitted expression is evaluated once
-                    if matches!(e, E::Var(_) | E::Lit(_)) || matches!(t, T::Bool | T::Int(..) | T::Str | T::Unit) {
+                    if matches!(e, E::Var(_) | E::Lit(_)) || matches!(t, T::Bool | T::Int(..) | T::Str | T::Unit | T::Host(_)) {
                         self.emit(&es, t, ind, out);
                     } else {
                         self.fresh += 1;
@@ -845,6 +900,11 @@ fn spec_e(e: &E, args: &Args, out: &mut Vec<String>) {
             }
         }
         E::Pass(_, x) => spec_e(x, args, out),
+        E::Host(_, x) => spec_e(x, args, out),
+        E::Get(l, i) => {
+            out.extend(["G".into(), i.to_string()]);
+            spec_e(l, args, out);
+        }
         E::Try(_, p, x) => {
             out.extend(["T".into(), p.len().to_string()]);
             out.extend(p.iter().map(|k| k.to_string()));
@@ -938,7 +998,7 @@ pub struct Program {
 }
 
 pub fn gen_program(p: &mut Prng) -> Program {
-    let o = GenOpts { exotic: false };
+    let o = GenOpts { exotic: false, host: true };
     let n = 1 + p.below(4) as usize;
     let env = gen_env(p, n, &o);
     let mut g = Gen { p, env, vars: vec![], helpers: vec![], kinds: Default::default(), fresh: 0 };
